@@ -170,6 +170,8 @@ class C19(Prop):
         if case.suite == "coop":
             from .. import coopgen as cg
             return cg.shrink_candidates(case)
+        if case.field("realtimer"):
+            return []
         return tg.time_shrink(case)
 
 
